@@ -137,9 +137,27 @@ def r1_tables(program, folder, rep):
         if d.var in (kx, ky) and d.mode == "assign" and \
                 isinstance(d.value, ast.IfExp):
             v = d.value
-            ok = unparse(v.test) == "%s > 0" % d.var and \
-                folder.eval(v.body, {}, fn._module) == -1 and \
-                folder.eval(v.orelse, {}, fn._module) == 1
+            # (x > 0 -> -1, else 1) or the same with the test the other way
+            # round; the component is not 0 here, so >= reads like >
+            vx = ast.Name(id=d.var, ctx=ast.Load())
+            tb = folder.eval(v.body, {}, fn._module)
+            to = folder.eval(v.orelse, {}, fn._module)
+            t_ = v.test
+            form = None
+            if isinstance(t_, ast.Compare) and len(t_.ops) == 1:
+                l_, r_ = unparse(t_.left), unparse(t_.comparators[0])
+                opn = type(t_.ops[0]).__name__
+                if r_ == "0" and l_ == d.var:
+                    form = {"Gt": "pos", "GtE": "pos", "Lt": "neg",
+                            "LtE": "neg"}.get(opn)
+                elif l_ == "0" and r_ == d.var:
+                    form = {"Lt": "pos", "LtE": "pos", "Gt": "neg",
+                            "GtE": "neg"}.get(opn)
+            if form is None:
+                raise AnalysisError("from_vector: the fold of %s is decided "
+                                    "by a test these rules do not read (%s)"
+                                    % (d.var, unparse(t_)))
+            ok = (tb, to) == ((-1, 1) if form == "pos" else (1, -1))
             rep.check(ok, "C11-R1", qual(fn), "a wrapped %s component maps "
                       "to the opposite unit step" % d.var,
                       construct="from_vector %s fold %s" % (d.var,
@@ -447,7 +465,11 @@ def _fold_t(t):
     return t
 
 
-def _ord_eval(fn, terms, env_for, spec, rep, rule, text, premise=None):
+def _ord_eval(fn, terms, env_for, spec, rep, rule, text, premise=None,
+              possible=None):
+    """``possible(o)``: can the ordering occur at all (the terms may be
+    related to each other)?  Asked only for orderings on which the function
+    and the specification differ."""
     bad = []
     n = 0
     for ranks in weak_orderings(len(terms)):
@@ -466,6 +488,8 @@ def _ord_eval(fn, terms, env_for, spec, rep, rule, text, premise=None):
                 all(o.sign(g - w) == 0 for g, w in zip(got, want))
         else:
             same = isinstance(got, Poly) and o.sign(got - want) == 0
+        if not same and possible is not None and not possible(o):
+            continue
         if not same:
             bad.append((ranks, got, want))
     rep.check(not bad, rule, qual(fn), "%s on all %d weak orderings of its "
@@ -607,8 +631,30 @@ def r3_closed_forms(program, folder, rep):
         c4 = "e" if r["e"] > r["f"] else "f"
         best = min([c1, "c", "d", c4], key=lambda t: r[t])
         return T(best)
+    # the six candidates are not independent: an ordering counts only if
+    # some offset 0 <= x < w, 0 <= y < h produces it (Fourier-Motzkin)
+    from ..poly import feasible, lt as _lt, le as _le, eq as _eq
+    xs, ys, ws, hs = [Poly.atom(a_) for a_ in ("x", "y", "w", "h")]
+    real = {"a": xs, "b": ys, "c": ws - xs + ys, "d": xs + hs - ys,
+            "e": ws - xs, "f": hs - ys}
+    dom = [_le(0, xs), _lt(xs, ws), _le(0, ys), _lt(ys, hs)]
+
+    def possible(o):
+        cons = list(dom)
+        for i, p_ in enumerate(terms6):
+            for q_ in terms6[i + 1:]:
+                if o.rank[p_] < o.rank[q_]:
+                    cons.append(_lt(real[p_], real[q_]))
+                elif o.rank[p_] > o.rank[q_]:
+                    cons.append(_lt(real[q_], real[p_]))
+                else:
+                    e_ = _eq(real[p_], real[q_])
+                    cons.extend(e_ if isinstance(e_, (list, tuple))
+                                else [e_])
+        return feasible(cons)
     n = _ord_eval(tail_fn, terms6, env6, spec6, rep, "C11-R3",
-                  "result = min(max(x,y), w-x+y, x+h-y, max(w-x,h-y))")
+                  "result = min(max(x,y), w-x+y, x+h-y, max(w-x,h-y))",
+                  possible=possible)
     rep.note("ORDTYPE: %d orderings of the six torus candidates" % n)
     # shortest_torus_path: the four candidates
     fn2 = program.get(GEO + ":shortest_torus_path")
@@ -718,6 +764,11 @@ def r3_closed_forms(program, folder, rep):
             good = [m_ for m_ in found if m_[0] == "binop" and
                     m_[1] == "FloorDiv" and m_[3] == S and
                     _lin(f2b, m_[2]) == _lin(f2b, want_t[2])]
+            if not found:
+                raise AnalysisError("shortest_torus_path: the number of "
+                                    "spirals along %s is not drawn as "
+                                    "randint(min(q, 0), max(q, 0)) * size "
+                                    "in a form these rules read" % var)
             if len(good) != 1:
                 ok = False
                 detail = "; ".join(show(m_)[:80] for m_ in found)
